@@ -5,7 +5,7 @@
 # which ./check hands to the driver as C19_VARIANT_BINS. Progress goes to stderr. Exit 2 = machinery error.
 #
 #   quick:    default (release, no `parallel`), seed1, seed2 (CONST_RANDOM_SEED=<k> at build time),
-#             par (--features par; the driver runs it with RAYON_NUM_THREADS in {1,4})
+#             par (--features par; the driver runs it with RAYON_NUM_THREADS in {1,4}), avx2chk, avx512chk
 #   thorough: + seed3..seed6, avx2, avx512 (RUSTFLAGS -C target-feature=...), checked (profile `checked`),
 #             avx2chk, avx512chk (both; these are the very builds ./check makes for C13-C15, same target
 #             directories <T>-avx2 / <T>-avx512, so they are normally up to date),
@@ -100,19 +100,25 @@ for k in $SEEDS; do NAMES+=("seed$k"); done
 # group C: parallel feature
 ( build_one par "$TGT-c19-par" release --features "par${SLIM:+,$SLIM}" || exit 2 ) & pids+=($!)
 NAMES+=(par)
-if [ "$TIER" = "thorough" ]; then
-  NAMES+=(checked)
-  if has_cpu avx2; then
+[ "$TIER" = "thorough" ] && NAMES+=(checked)
+# SIMD builds: the checked AVX2 / AVX-512 builds are the ones ./check makes for C13-C15 anyway (same target
+# directories), so they are part of the quick tier too; the release SIMD builds are thorough only
+if has_cpu avx2; then
+  ( RUSTFLAGS="-C target-feature=+avx2" build_one avx2chk "$TGT-avx2" checked || exit 2 ) & pids+=($!)
+  NAMES+=(avx2chk)
+  if [ "$TIER" = "thorough" ]; then
     ( RUSTFLAGS="-C target-feature=+avx2" build_one avx2 "$TGT-c19-avx2" release ${SLIM:+--features $SLIM} || exit 2 ) & pids+=($!)
-    ( RUSTFLAGS="-C target-feature=+avx2" build_one avx2chk "$TGT-avx2" checked || exit 2 ) & pids+=($!)
-    NAMES+=(avx2 avx2chk)
-  else say "avx2: CPU lacks the feature, variant skipped"; fi
-  if has_cpu avx512f avx512bw avx512cd avx512dq avx512vl; then
+    NAMES+=(avx2)
+  fi
+else say "avx2: CPU lacks the feature, variant skipped"; fi
+if has_cpu avx512f avx512bw avx512cd avx512dq avx512vl; then
+  ( RUSTFLAGS="-C target-feature=+avx512f,+avx512bw,+avx512cd,+avx512dq,+avx512vl" build_one avx512chk "$TGT-avx512" checked || exit 2 ) & pids+=($!)
+  NAMES+=(avx512chk)
+  if [ "$TIER" = "thorough" ]; then
     ( RUSTFLAGS="-C target-feature=+avx512f,+avx512bw,+avx512cd,+avx512dq,+avx512vl" build_one avx512 "$TGT-c19-avx512" release ${SLIM:+--features $SLIM} || exit 2 ) & pids+=($!)
-    ( RUSTFLAGS="-C target-feature=+avx512f,+avx512bw,+avx512cd,+avx512dq,+avx512vl" build_one avx512chk "$TGT-avx512" checked || exit 2 ) & pids+=($!)
-    NAMES+=(avx512 avx512chk)
-  else say "avx512: CPU lacks the features, variant skipped"; fi
-fi
+    NAMES+=(avx512)
+  fi
+else say "avx512: CPU lacks the features, variant skipped"; fi
 rc=0
 for p in "${pids[@]}"; do wait "$p" || rc=2; done
 [ $rc -eq 0 ] || exit 2
